@@ -256,6 +256,13 @@ impl TimerWheel {
     }
 }
 
+#[cfg(feature = "verif_hooks")]
+impl TimerWheel {
+    pub(crate) fn verif_heap_len(&self) -> usize {
+        self.heap.len()
+    }
+}
+
 // trait implementations for TimeoutData
 
 impl std::cmp::Ord for TimeoutData {
